@@ -99,7 +99,12 @@ pub fn explore_case(desc: String, base: &RunCfg, max_paths: u64, body: &dyn Fn()
             if panicked {
                 let m = pmsg.clone().unwrap_or_default();
                 // engine-internal assertion failures are inconclusive, panics in the code under test are findings
-                let engine = m.contains("symcore") || m.contains("symlab") || m.contains("Big overflow") || m.contains("/scen/src/") || m.contains("/scen-tr/src/");
+                // a panic located in the scenario sources is a harness fault when it is arithmetic (my bug: inconclusive);
+                // a failed lookup / index / unwrap there means the code under test returned something the
+                // scenario could not consume (a missing map entry, a shorter vector): that is a finding
+                let in_scen = m.contains("/scen/src/") || m.contains("/scen-tr/src/");
+                let lookup = m.contains("no entry found for key") || m.contains("index out of bounds") || m.contains("on a `None` value") || m.contains("range end index") || m.contains("range start index") || m.contains("out of range for slice");
+                let engine = m.contains("symcore") || m.contains("symlab") || m.contains("Big overflow") || (in_scen && !lookup);
                 c.fail("panic", format!("the scenario panicked: {m}"), engine);
             }
             c.confirm_path();
